@@ -239,7 +239,7 @@ pub open spec fn trim_spec<'a>(trim_start: bool, e: Event<'a>, r: Option<Payload
 }
 impl<'a> PayloadEvent<'a> {
 //@extract de::PayloadEvent::into_owned | src/de/mod.rs :: impl<'a> PayloadEvent<'a> :: fn into_owned | serves=C14 features=serialize
-    fn into_owned(self) -> (r: PayloadEvent<'static>)
+    pub fn into_owned(self) -> (r: PayloadEvent<'static>)
         // C14: what from_reader hands out is, byte for byte, what from_str hands out
         ensures same_payload(self, r)
     {
@@ -265,12 +265,22 @@ pub struct StartTrimmer {
     /// [`Event::Text`]. This field is set to `true` after reading each event
     /// except [`Event::Text`] and [`Event::CData`], so [`Event::Text`] events
     /// read right after them does not trimmed.
-    trim_start: bool,
+    pub trim_start: bool,
 }
 //@end
+impl Default for StartTrimmer {
+//@extract de::StartTrimmer::default | src/de/mod.rs :: impl Default for StartTrimmer :: fn default | serves=C14 features=serialize
+    fn default() -> (r: Self)
+        // the first text of a document is trimmed at its start
+        ensures r.trim_start
+    {
+        Self { trim_start: true }
+    }
+//@end
+}
 impl StartTrimmer {
 //@extract de::StartTrimmer::trim | src/de/mod.rs :: impl StartTrimmer :: fn trim | serves=C14 features=serialize
-    fn trim<'a>(&mut self, event: Event<'a>) -> (r: Option<PayloadEvent<'a>>)
+    pub fn trim<'a>(&mut self, event: Event<'a>) -> (r: Option<PayloadEvent<'a>>)
         // C14: one function serves both paths; what it does depends on the event and the flag only
         ensures trim_spec(old(self).trim_start, event, r, final(self).trim_start)
     {
